@@ -19,25 +19,42 @@ class Item(dict):
     pass
 
 
-def find_codec(an: Analysis):
+def _call_chain(an, m, f):
+    """The module functions applied one inside the other (by first argument) in f's returned expression, innermost first."""
+    from .encode_model import inline_locals
+    rets = [n for n in ast.walk(f.node) if isinstance(n, ast.Return) and n.value is not None]
+    if len(rets) != 1:
+        return []
+    e = inline_locals(f.node, rets[0].value)
+    chain = []
+    while isinstance(e, ast.Call) and isinstance(e.func, ast.Name) and e.func.id in m.functions and e.args:
+        chain.append(m.functions[e.func.id])
+        e = e.args[0]
+    return list(reversed(chain)), e
+
+
+def find_stages(an: Analysis):
+    """The six stage functions of the line-table codec by their place in the two drivers' call chains:
+    decode driver (reads co_lnotab / co_linetable): bytes -> items -> collapsed items -> mapping; encode driver: the reverse."""
     m = an.prog.module("code_data._line_mapping")
-    collapse = expand = b2i = i2b = None
+    dec = enc = None
     for f in m.functions.values():
-        src_names = {n.id for n in ast.walk(f.node) if isinstance(n, ast.Name)}
-        has_del = any(isinstance(n, ast.Delete) for n in ast.walk(f.node))
-        has_while = any(isinstance(n, ast.While) for n in ast.walk(f.node))
-        if len(f.params) == 2 and has_del:
-            collapse = f
-        elif len(f.params) == 2 and f.nested and has_while:
-            expand = f
-        elif len(f.params) == 1 and _receives_line_table(an, f):
-            b2i = f
-        elif len(f.params) == 1 and "bytes" in src_names and any(isinstance(n, ast.List) and len(n.elts) == 2 for n in ast.walk(f.node)) \
-                and not any(isinstance(n, ast.Attribute) and n.attr.startswith("co_") for n in ast.walk(f.node)):
-            i2b = f
-    if not (collapse and expand and b2i and i2b):
-        raise AnalysisError(f"line-table codec stage functions not all recognised (collapse={collapse}, expand={expand}, bytes_to_items={b2i}, items_to_bytes={i2b})")
-    return collapse, expand, b2i, i2b
+        r = _call_chain(an, m, f)
+        if not r or len(r[0]) != 3:
+            continue
+        chain, inner = r
+        if any(isinstance(n, ast.Attribute) and n.attr in ("co_lnotab", "co_linetable") for n in ast.walk(inner)):
+            dec = chain
+        elif any(isinstance(n, ast.Name) and n.id in f.params for n in ast.walk(inner)):
+            enc = chain
+    if dec is None or enc is None:
+        raise AnalysisError(f"line-table codec drivers not recognised (decode chain={dec and [f.name for f in dec]}, encode chain={enc and [f.name for f in enc]})")
+    return {"b2i": dec[0], "collapse": dec[1], "to_map": dec[2], "from_map": enc[0], "expand": enc[1], "i2b": enc[2]}
+
+
+def find_codec(an: Analysis):
+    st = find_stages(an)
+    return st["collapse"], st["expand"], st["b2i"], st["i2b"]
 
 
 def _receives_line_table(an: Analysis, f: FunctionInfo) -> bool:
@@ -81,6 +98,7 @@ def format_rules(an: Analysis, rep):
     rep.run(r104, an, rep, b2i, i2b)
     rep.run(r102_siblings, an, rep, expand)
     rep.run(r102_order, an, rep, expand)
+    rep.run(r105, an, rep)
 
 
 def _merge_predicates(collapse: FunctionInfo):
@@ -448,3 +466,51 @@ def _eval_signed(expr, p, iv, sample, i):
                 order = feval(k.value, {})
         return int.from_bytes(bytes(arg), order, signed=signed)
     return feval(expr, {p: sample, iv: i})
+
+
+def r105(an, rep):
+    """The line an offset gets is the running sum of the line deltas (lnotab_notes.txt: `lineno += line_incr`); nothing but a delta moves it.
+
+    In particular a 3.10 entry with no line (-128) leaves the running line alone: the next entry's delta counts from the line before it."""
+    rep.rule("R10.5", "the mapping builder's running line is moved by adding table deltas only", 1)
+    st = find_stages(an)
+    f = st["to_map"]
+    pm = parent_map(f.module)
+    params = set(f.params)
+    loop_targets = {n.id for lp in ast.walk(f.node) if isinstance(lp, (ast.For, ast.comprehension)) for n in ast.walk(lp.target) if isinstance(n, ast.Name)}
+    running = set()
+    for n in ast.walk(f.node):
+        if isinstance(n, ast.Assign) and isinstance(n.targets[0], ast.Subscript):
+            for x in ast.walk(n.value):
+                if isinstance(x, ast.Name) and x.id not in params and x.id not in loop_targets:
+                    running.add(x.id)
+    # keep those that are accumulators: augmented somewhere by something read from an item's line field
+    def reads_delta(e):
+        return any(isinstance(x, ast.Attribute) and "line" in x.attr for x in ast.walk(e)) or any(
+            isinstance(x, ast.Name) and "line" in x.id and x.id not in running for x in ast.walk(e))
+    accs = sorted(v for v in running if any(isinstance(n, ast.AugAssign) and isinstance(n.target, ast.Name) and n.target.id == v and reads_delta(n.value) for n in ast.walk(f.node)))
+    if not accs:
+        raise AnalysisError(f"{f.qual}: running line variable not recognised (candidates {sorted(running)})")
+
+    def in_loop(node):
+        cur = node
+        while id(cur) in pm and pm[id(cur)] is not f.node:
+            cur = pm[id(cur)]
+            if isinstance(cur, (ast.For, ast.While)):
+                return True
+        return False
+    for v in accs:
+        bad = []
+        n_upd = 0
+        for n in ast.walk(f.node):
+            if isinstance(n, ast.AugAssign) and isinstance(n.target, ast.Name) and n.target.id == v:
+                n_upd += 1
+                if not isinstance(n.op, ast.Add) or not reads_delta(n.value):
+                    bad.append(n)
+            elif isinstance(n, ast.Assign) and any(isinstance(t, ast.Name) and t.id == v for t in n.targets) and in_loop(n):
+                if not any(isinstance(x, ast.Name) and x.id == v for x in ast.walk(n.value)):
+                    bad.append(n)
+        rep.add("R10.5", f"{f.qual}::{v} is a running sum of line deltas", not bad, loc(f.module, bad[0] if bad else f.node),
+                f"`{v}` starts at a constant and is only ever moved by `+= <line delta of an entry>` ({n_upd} update site(s))" if not bad else
+                f"`{norm_src(bad[0])}` inside the table loop sets the running line by something other than adding an entry's delta: CPython keeps counting from the "
+                f"previous line (an entry without a line does not move it), so every later offset gets a line CPython does not assign")
